@@ -39,6 +39,58 @@ def proj_client(which):
         return (a, b)
     return p
 
+
+def session_groups(ans):
+    """(tag, clock-read log, outcome text) of every element of a session answer"""
+    out = []
+    for g in ans.split(' ; '):
+        g = g.strip()
+        tag = g.split(' ', 1)[0]
+        if tag in ('q', 'cq') and ' : ' in g:
+            head, res = g.split(' : ', 1)
+            out.append((tag, head.split(' ', 1)[1] if ' ' in head else '', res))
+        else:
+            out.append((tag, '', g))
+    return out
+
+def proj_session(which):
+    """the observable of a session line that property `which` speaks about"""
+    def p(c):
+        ia, ma = session_groups(c.impl), session_groups(c.model)
+        if len(ia) != len(ma): return (c.impl, c.model)
+        a = []; b = []
+        for (ti, li, ri), (tm, lm, rm) in zip(ia, ma):
+            if ti not in ('q', 'cq') or tm not in ('q', 'cq'):
+                continue                                   # publications, pokes and opens: C16/C17's business
+            if which == 'order': a.append(li); b.append(lm)
+            elif which == 'all': a.append((li, ri)); b.append((lm, rm))
+            elif which == 'class':
+                a.append(ri.split()[0:2] if not is_ok(ri) else ['ok']); b.append(rm.split()[0:2] if not is_ok(rm) else ['ok'])
+            elif is_ok(ri) and is_ok(rm):
+                fx, fy = client_fields(ri), client_fields(rm)
+                i = 0 if which == 'interval' else 1
+                a.append(fx[i]); b.append(fy[i])
+        return (a, b)
+    return p
+
+def with_session(proj, which):
+    return lambda c: proj_session(which)(c) if kind(c) == 'session' else proj(c)
+
+SESSION_RULE = " || `session` lines: one real segment (fresh file, real ShmWriter), one long-lived ClockBoundClient and one long-lived C context (clockbound_open in the C client process) driven through 3-20 operations: publications, the generation/version word overwritten (writer dead mid-update, segment being re-initialised), re-opens, and paired now()/clockbound_now() calls at instants aimed at the cached record's thresholds (blur, 5 s, void-after, far beyond, 2^32-ns aliases); ten scripted sessions (one record ageing through every threshold on one client, grace-then-void with nothing in between, a record that becomes malformed asked repeatedly, repeated causality breach, odd/zero generation before the first call, frozen odd generation while the cached record ages, publications between calls, open before the first publication) always run; every answer must be what a fresh evaluation of the cached-record semantics gives, with the clock reads in the order REALTIME, MONOTONIC_COARSE on every call"
+
+def world_pubs(ans):
+    """the publications of a world line: list of token lists starting with 'rec'"""
+    return [g.split() for g in ans.split(' ; ') if g.startswith('rec ')]
+
+def proj_world(which):
+    def p(c):
+        a, b = world_pubs(c.impl), world_pubs(c.model)
+        if which == 'gen':      # the generation word after each publication
+            return ([t[-1] for t in a if t[-1].startswith('@')], [t[-1] for t in b if t[-1].startswith('@')])
+        # 'trust': as-of, bound and status of each published record
+        return ([(t[1:3], t[5:6], t[8:9]) for t in a], [(t[1:3], t[5:6], t[8:9]) for t in b])
+    return p
+
 CLIENT_TB = ["modelled, not verified: nix 0.26.4 TimeSpec arithmetic (mirrored operation by operation), Rust `as` casts, IEEE-754 binary64 as exact-rational round-to-nearest-even (exponent range not modelled; bit-compared with hardware on every case)"]
 
 PROPS = {
@@ -47,10 +99,11 @@ PROPS = {
     technique='Lean 4 proof (rational model of IEEE doubles; rne53 relative-error and monotonicity lemmas) + differential correspondence of the compiled model against ClockErrorBound::now() under an interposed clock',
     level_text='Theorems C05.symmetric / growth_bounds / growth_mono / mono_holds / model_holds prove, for every record and clock reading in the physically meaningful range, symmetry, ordering, half-width = bound + growth with P(1-2^-51)-1 < growth <= P(1+2^-51), and monotonicity in age, about a line-by-line model of compute_bound_at including a bit-exact rational model of the f64 operations. The model is tied to the current source by running the real now() on ~35k generated cases per run and comparing intervals exactly.',
     level_note='Trusted: Lean kernel + 3 standard axioms; nix TimeSpec and IEEE rounding are modelled (mirrored), not verified; correspondence is differential testing.',
-    gens=lambda seed, th: [['client', seed, 400000 if th else 25000], ['client2', seed, 200000 if th else 10000], ['corder', seed, 5000 if th else 600]],
-    relevant=lambda c: kind(c) in ('client', 'client2', 'corder'),
+    gens=lambda seed, th: [['client', seed, 400000 if th else 25000], ['client2', seed, 200000 if th else 10000], ['corder', seed, 5000 if th else 600], ['session', seed, 40000 if th else 1500]],
+    relevant=lambda c: kind(c) in ('client', 'client2', 'corder', 'session'),
     also=['C12'],
-    project=lambda c: (c.impl.split(' ; ')[0], c.model.split(' ; ')[0]) if kind(c) == 'corder' else proj_client('interval')(c),
+    pre='build_cclient',
+    project=lambda c: (c.impl.split(' ; ')[0], c.model.split(' ; ')[0]) if kind(c) == 'corder' else with_session(proj_client('interval'), 'interval')(c),
     nontrivial=lambda c: 'growth' in c.tags,
     rule="cases from one PRNG (VERIF_SEED): records x (realtime, monotonic) readings biased to nsec in {0,1,999999999}, ages in {0, sub-us, 1 s +- 1 ns, hours, days}, drift in {0,1,999,50000,999999999}, products drift*age/1e9 straddling integers; `client2` = two readings of one record (monotonicity). distinct = sha1 of request line; non-trivial = age > 0 and drift > 0 and exact growth >= 1 ns (tag `growth`) and the C05 hypotheses apply",
     trusted_base=CLIENT_TB,
@@ -61,9 +114,10 @@ PROPS = {
     technique='Lean 4 proof (omega over the nix TimeSpec mirror) + exhaustive threshold grid and random differential correspondence against the real now()',
     level_text='Theorem C06.status_char gives the total characterisation of the reported status for all three stored statuses and every reading in range; the property clauses (synchronized_only_if, freeRunning_only_if, unknown_always, fresh_passthrough) are corollaries, and daemon_record_applicable shows every daemon-written record meets the hypothesis. The real code is compared with the model on an exhaustive +-1 ns grid around every threshold and on random cases each run.',
     level_note='Trusted: Lean kernel + standard axioms; nix TimeSpec ordering/arithmetic mirrored; correspondence is differential testing.',
-    gens=lambda seed, th: [['client', seed, 400000 if th else 25000]],
-    relevant=lambda c: kind(c) == 'client',
-    project=proj_client('status'),
+    gens=lambda seed, th: [['client', seed, 400000 if th else 25000], ['session', seed, 40000 if th else 1500]],
+    relevant=lambda c: kind(c) in ('client', 'session'),
+    pre='build_cclient',
+    project=with_session(proj_client('status'), 'status'),
     nontrivial=lambda c: bool(c.tags & {'near5s', 'nearVoid', 'aged'}),
     rule="exhaustive grid {3 statuses} x {as_of-1000ns, as_of, as_of+5s, void_after} x {-1,0,+1 ns} x 8 as_of shapes x 4 void_after shapes x 4 drifts, plus seeded random cases; distinct = sha1 of request; non-trivial = monotonic reading within 1 us of the 5 s or void-after threshold, or beyond 5 s with a trusted stored status",
     trusted_base=CLIENT_TB,
@@ -73,9 +127,10 @@ PROPS = {
     technique='Lean 4 proof that no checked-arithmetic or nix range panic is reachable in range, with outcome characterisation + differential correspondence incl. a malformed-input stream under catch_unwind',
     level_text='Theorems C14.no_panic, malformed_iff, causality_iff, ok_otherwise, blur_age_zero: in the model every i64 operation and nix assertion is explicit, and for all inputs within +-2^31 s and bound < 2^60 none of them fires; error outcomes are characterised exactly. The real now() is run under catch_unwind on boundary grids (as_of-1000ns +-1, drift 1e9 +-1, range corners) and on out-of-range inputs where the model must predict the panic.',
     level_note='Trusted: Lean kernel + standard axioms; dev-profile overflow semantics and nix 0.26.4 assertions are modelled; release builds wrap instead of panicking and are out of scope.',
-    gens=lambda seed, th: [['client', seed, 400000 if th else 25000]],
-    relevant=lambda c: kind(c) == 'client',
-    project=proj_client('class'),
+    gens=lambda seed, th: [['client', seed, 400000 if th else 25000], ['session', seed, 40000 if th else 1500]],
+    relevant=lambda c: kind(c) in ('client', 'session'),
+    pre='build_cclient',
+    project=with_session(proj_client('class'), 'class'),
     nontrivial=lambda c: bool(c.tags & {'nearBlur', 'badDrift'}),
     rule="same generator as C06 (threshold grid + seeded random + a 4% stream of non-normalised / extreme values outside the property's range, used for model agreement only); non-trivial = monotonic reading within 1 us of as_of - 1000 ns, or drift >= 10^9",
     trusted_base=CLIENT_TB,
@@ -131,6 +186,8 @@ def c19_run(reqs):
             for n in names[:64]: e[n] = '7'
         if '@prior' in toks:
             e['CB_PRIOR_PPB'] = toks[toks.index('@prior') + 1]
+        if '@phc' in toks:
+            e['CB_PHC'] = '1'
         q = subprocess.run(cmd, env=e, stdin=subprocess.DEVNULL, stdout=subprocess.PIPE, stderr=subprocess.DEVNULL, text=True, timeout=60)
         return f'{r} => {q.stdout.strip() or "no-output"}'
     with concurrent.futures.ThreadPoolExecutor(max_workers=12) as ex:
@@ -150,6 +207,13 @@ def c19_gen(seed, thorough):
         for v in ('none', 50, 0, 4294967, 4294968):
             reqs.append(f'drift {v} @env')
         reqs.append('drift 50 @prior 1000 @env')
+        # the other options of the command line (PHC reference id + interface) given as well
+        for v in ('none', 50, 0, 1, 4294967, 4294968, 123456):
+            reqs.append(f'drift {v} @phc')
+        reqs.append('drift 50 @phc @prior 1000')
+        # far beyond 32 bits: multiples of 2^64/1000 and of 2^32 (a wider intermediate type must not let them through)
+        for v in (2**64 // 1000, 2**64 // 1000 + 1, 2**64 // 1000 + 51, 2**64 - 1, 2**64, 2**63, 2**32 * 1000, 2**32 + 50, 2**64 // 1000 * 3 + 2, 10**30):
+            reqs.append(f'drift {v}')
         # the option takes whole ppm: fractions are rejected (or, if ever accepted, published exactly)
         for v in ('1.015', '2.002', '0.0004', '33.333333', '0.5', '4294967.2959', '1.000'):
             reqs.append(f'drift {v}')
@@ -204,11 +268,11 @@ PROPS.update({
  ),
  'C09': dict(
     oracle='C09', also=['C13'],
-    gens=lambda seed, th: [['upd', seed, 100000 if th else 3000], ['poll', seed, 20000 if th else 2000]],
-    relevant=lambda c: kind(c) in ('upd', 'poll'),
-    project=lambda c: proj_upd(c) if kind(c) == 'upd' else proj_poll_c13(c),
+    gens=lambda seed, th: [['upd', seed, 100000 if th else 3000], ['poll', seed, 20000 if th else 2000], ['worldgen', seed, 20000 if th else 800]],
+    relevant=lambda c: kind(c) in ('upd', 'poll', 'world'),
+    project=lambda c: proj_upd(c) if kind(c) == 'upd' else (proj_world('trust')(c) if kind(c) == 'world' else proj_poll_c13(c)),
     nontrivial=lambda c: 'trustTemptation' in c.tags,
-    rule="same histories as C08; non-trivial = the history has a prefix without any synchronised report that ends in a FreeRunning-class outcome (leap 3, stale, in-grace silence or PHC failure), i.e. the situation in which trust could be advertised without a measurement",
+    rule="same histories as C08; non-trivial = the history has a prefix without any synchronised report that ends in a FreeRunning-class outcome (leap 3, stale, in-grace silence or PHC failure), i.e. the situation in which trust could be advertised without a measurement || plus the `world` histories of C01 (real ShmUpdater over a REAL ShmWriter on a file that survives the daemon, restarts that re-create the updater over the segment the previous incarnation left, one history in five starting cold with nothing but silences / unsynchronised reports / restarts): every record published with a trusted status must carry the (bound, as-of) of a record the model published with a trusted status in the same history",
     trusted_base=DAEMON_TB,
     technique='Lean 4 invariant proof over all message histories (status != Unknown only with bound/as-of of a synchronised report) + client corollary + differential correspondence on histories without synchronised reports',
     level_text='Theorem C09.model_holds: in every reachable updater state a non-Unknown status is published only with the bound and as-of of the most recent synchronised report; unknown_until_first_sync and client_sees_unknown give the property as stated (clients see Unknown at every uptime).',
@@ -216,11 +280,12 @@ PROPS.update({
  ),
  'C11': dict(
     oracle='C11', also=['C04'],
-    gens=lambda seed, th: [['genall'], ['crashgrid']],
-    relevant=lambda c: kind(c) in ('gen', 'crashpt'),
+    gens=lambda seed, th: [['genall'], ['crashgrid'], ['worldgen', seed, 20000 if th else 800]],
+    relevant=lambda c: kind(c) in ('gen', 'crashpt', 'world'),
+    project=lambda c: proj_world('gen')(c) if kind(c) == 'world' else (c.impl, c.model),
     nontrivial=lambda c: True,
     exhaustive=True,
-    rule="exhaustive: the real ShmWriter::write is run from each of the 65536 generation values poked into a tmpfs segment; the in-flight value is observed at the record-copy hook, the final value read from the file; all cases are non-trivial and distinct. Plus the `crashpt` lines of C04 (restart over every kind of prior file, death at every event, incl. an old file and a non-UTF-8 file name): a published generation must never return to 0, i.e. a valid segment is never wiped by a restart (verdict C04)",
+    rule="`world` lines (C01's histories: the real ShmUpdater publishing through a REAL ShmWriter, restarts in place): the generation word of the file is read after every publication of the daemon path (data, unsynchronised, silence) and must be even, non-zero and different from the one before. || exhaustive: the real ShmWriter::write is run from each of the 65536 generation values poked into a tmpfs segment; the in-flight value is observed at the record-copy hook, the final value read from the file; all cases are non-trivial and distinct. Plus the `crashpt` lines of C04 (restart over every kind of prior file, death at every event, incl. an old file and a non-UTF-8 file name): a published generation must never return to 0, i.e. a valid segment is never wiped by a restart (verdict C04)",
     trusted_base=["modelled: u16 wrapping arithmetic as Nat mod 65536"],
     technique='Lean 4 proof (omega) of the start/finish arithmetic for all 65536 values and of the invariant over all histories of completed/interrupted updates + exhaustive differential run of the real write()',
     level_text='Theorems C11.start_odd, finish_props, wrap, update_changes and history_invariant: for every start value and every history of start/finish/crash events the generation is odd during an update, even and non-zero when idle after a completed update, changes with every completed update and never returns to 0. The real write() is run from all 65536 start values on every run.',
@@ -233,7 +298,7 @@ PROPS.update({
     project=proj_first2,
     nontrivial=lambda c: bool(c.tags & {'boundary', 'unrepresentable'}),
     shrink=False,
-    rule="the release `clockbound` binary built from the working tree is started in a private mount namespace (tmpfs /run) with --max-drift-rate X for X in {omitted, 0, 1, 50, 4294967, 4294968, 2^32-1, 2^32 (clap rejects), ...} plus seeded values; the max_drift_ppb field of the published segment or the exit status is compared; non-trivial = X*1000 >= 2^32 - 2000 (boundary or unrepresentable) || plus `@prior <ppb>`: the daemon restarts over a previous instance's valid segment whose live (Synchronized) record carries another rate (the published rate must be the configured one), and `@env`: every environment-variable-like name found in the release binary that could concern the rate (containing CLOCKBOUND / DRIFT / PPM / PPB) is set to 7",
+    rule="the release `clockbound` binary built from the working tree is started in a private mount namespace (tmpfs /run) with --max-drift-rate X for X in {omitted, 0, 1, 50, 4294967, 4294968, 2^32-1, 2^32 (clap rejects), ...} plus seeded values; the max_drift_ppb field of the published segment or the exit status is compared; non-trivial = X*1000 >= 2^32 - 2000 (boundary or unrepresentable) || plus `@prior <ppb>`: the daemon restarts over a previous instance's valid segment whose live (Synchronized) record carries another rate (the published rate must be the configured one), and `@env`: every environment-variable-like name found in the release binary that could concern the rate (containing CLOCKBOUND / DRIFT / PPM / PPB) is set to 7; `@phc`: the PHC options (--phc-ref-id, --phc-interface resolving to a fake uevent file inside the private /run) are given as well and must not change the published rate; values far beyond 32 bits (around 2^64/1000, 2^64, 10^30) must be refused, not reduced modulo anything",
     trusted_base=["clap's u32 parsing and process start-up are observed by running the binary, not modelled", "unshare -m + tmpfs isolation of /run"],
     technique='Lean 4 proof (omega) over all 32-bit rates + process-level differential runs of the release binary',
     level_text='Theorems C19.exact_or_refused, never_wrapped, default_one_ppm, published: the conversion yields exactly 1000 x rate or refuses, never a wrapped value, and the value reaches every published record. The 2^32 quantifier is carried by the theorem; ~60 release-binary runs per check sample it at the boundary.',
@@ -250,10 +315,11 @@ PROPS.update(PROPS_POLLER)
 C12_CLIENT = dict(
     oracle='C12',
     lean_modules=['ClockBound.Properties.C12'],
-    gens=lambda seed, th: [['corder', seed, 20000 if th else 2000]],
-    relevant=lambda c: kind(c) == 'corder',
-    project=lambda c: (c.impl.split(' ; ')[0], c.model.split(' ; ')[0]),
-    nontrivial=lambda c: 'meaningful' in c.tags,
+    gens=lambda seed, th: [['corder', seed, 20000 if th else 2000], ['session', seed, 40000 if th else 1500]],
+    relevant=lambda c: kind(c) in ('corder', 'session'),
+    pre='build_cclient',
+    project=lambda c: proj_session('order')(c) if kind(c) == 'session' else (c.impl.split(' ; ')[0], c.model.split(' ; ')[0]),
+    nontrivial=lambda c: 'meaningful' in c.tags or 'multiCall' in c.tags,
     rule="client half: the real ClockErrorBound::now() is run under the clock_gettime interposer, which logs the clock id of every read: the log must be [CLOCK_REALTIME, CLOCK_MONOTONIC_COARSE]; non-trivial = inputs in the meaningful range",
     trusted_base=["the clock_gettime interposer sees every clock read of the process"],
     technique='Lean 4 proof that containment (C01) needs only ta <= tq and tr <= tm, that either delay only widens the interval, and that either swapped order breaks containment in an explicit world + observation of the real read order under the interposer',
@@ -310,7 +376,7 @@ PROPS.update({
     relevant=lambda c: kind(c) in ('sl', 'slx', 'client'),
     also=['C14'],
     project=lambda c: proj_client('class')(c) if kind(c) == 'client' else proj_sl(c),
-    lean_modules=['ClockBound.Properties.C18'],
+    lean_modules=['ClockBound.Properties.C18', 'ClockBound.Properties.SeqlockProg'],
     technique='Lean 4 termination measure on the reader machine, for every log and every load result + full exhaustion runs of the real snapshot() against an adversarial value script + scheduler runs with a writer killed at every kind of point',
     level_text='Theorems C18.step_decreases / bounded: every shared access of snapshot() ends the call or strictly decreases an explicit measure <= 2 + 10^6 * 9, whatever the log contains and whatever the loads return (so for a writer stopped for ever at any point or updating continuously); in_flight_answers_from_cache / version_zero_answers_from_cache: an odd or zero generation, or version 0, is answered from the cache after at most two loads.',
     level_note='Trusted: Lean kernel + standard axioms; the bound is on shared accesses, not on seconds.',
@@ -319,7 +385,7 @@ PROPS.update({
 
 PROPS['C01'] = dict(
     oracle='C01', also=['C02', 'C13', 'C07'],
-    lean_modules=['ClockBound.Properties.C01'],
+    lean_modules=['ClockBound.Properties.C01', 'ClockBound.Properties.C01Pipeline'],
     gens=lambda seed, th: [['worldgen', seed, 30000 if th else 1200], ['slgen', seed, 5000 if th else 300], ['slxgen'], ['poll', seed, 10000 if th else 1500]],
     relevant=lambda c: kind(c) in ('world', 'sl', 'slx', 'poll'),
     project=lambda c: proj_poll_c13(c) if kind(c) == 'poll' else (c.impl, c.model),
@@ -336,14 +402,14 @@ PROPS['C01'] = dict(
 )
 
 PROPS['C04'] = sl_entry('C04', lambda c: 'crash' in c.tags,
-    "plus `crashpt` lines (file level): the real ShmWriter::new + first write is killed at EVERY hook point / shared access (k = 0..23) over 9 prior file states {missing, empty, garbage, wiped, valid with even / odd / near-wrap generation} (+ layout versions 3 / 65535, and restarts over a file last modified two hours ago `@old` / with a non-UTF-8 name `@bin`), with a real reader attached beforehand when the segment was usable; then a restarted writer publishes; observed: what the dead writer left, whether it can be opened, inode/length, what the attached and a fresh reader obtain. non-trivial = the writer was killed (tag crash)",
+    "plus `crashpt` lines (file level): the real ShmWriter::new + first write is killed at EVERY hook point / shared access (k = 0..23) over 9 prior file states {missing, empty, garbage, wiped, valid with even / odd / near-wrap generation} + 3 FOREIGN priors {a 72-byte segment of another layout revision: second magic word wrong, plausible size / version / even, odd, near-wrap generation, and a payload} (+ layout versions 3 / 65535, and restarts over a file last modified two hours ago `@old` / with a non-UTF-8 name `@bin`), with a real reader attached beforehand when the segment was usable; then a restarted writer publishes; observed: what the dead writer left, whether it can be opened, inode/length, what the attached reader and a FRESH reader obtain both between the crash and the restart and after it. New clause (nobody reads what was never published): a fresh client that manages to attach after the crash and before the restart obtains the empty record, the record being published, or - over a usable prior only - the prior's record, never anything else (e.g. a foreign payload under a header the dead writer had just made valid). non-trivial = the writer was killed (tag crash)",
     gens=lambda seed, th: [['slgen', seed, 30000 if th else 1200], ['crashgrid'], ['slxgen', 'all'] if th else ['slxgen'], ['hdr-seg', seed, 20000 if th else 1500]],
     relevant=lambda c: kind(c) in ('sl', 'crashpt', 'slx', 'seg'),
     also=['C16'],
     exhaustive=True,
     lean_modules=['ClockBound.Properties.C04', 'ClockBound.Properties.C02', 'ClockBound.Properties.C03', 'ClockBound.Properties.C03b'],
     technique='Lean 4 proofs: (a),(b) the C02/C03 invariants are proved over a step relation that contains writer death at any access and restart; (c),(d) file-level model of ShmWriter::new + first write as an event script with death at every event, all prior file states + exhaustive crash-point sweep of the real code and scheduler runs with kills',
-    level_text='(a),(b): C02.no_mixture_general, C03.accepted_monotone and C03.catches_up quantify over SL.Step, which includes wKill (death between any two shared accesses) and wNew (take-over by a restarted writer), so attached readers keep getting complete records in publication order and see the new writer\'s publications without reopening. (c),(d): C04.usable_never_wiped / usable_preserved (a usable segment is never wiped, keeps inode-independent length and stays usable at every crash point), restart_repairs / recreated_layout (from ANY file state and ANY crash point, restart + one publication yields a usable 72-byte-or-taken-over segment holding exactly the record, generation even non-zero), unusable_until_first_publication_starts (nobody can attach to a half-initialised file), attached_reader_across_restart. All 216 crash-point x prior combinations are run on the real code every time.',
+    level_text='(a),(b): C02.no_mixture_general, C03.accepted_monotone and C03.catches_up quantify over SL.Step, which includes wKill (death between any two shared accesses) and wNew (take-over by a restarted writer), so attached readers keep getting complete records in publication order and see the new writer\'s publications without reopening. (c),(d): C04.usable_never_wiped / usable_preserved (a usable segment is never wiped, keeps inode-independent length and stays usable at every crash point), restart_repairs / recreated_layout (from ANY file state and ANY crash point, restart + one publication yields a usable 72-byte-or-taken-over segment holding exactly the record, generation even non-zero), unusable_until_first_publication_starts (nobody can attach to a half-initialised file), attached_reader_across_restart, fresh_after_crash / fresh1_after_crash (from ANY file, incl. a foreign-revision segment, and ANY crash point a client attaching before the restart gets the empty record, the record being published or the record of a usable prior - never an unpublished payload). All 336 crash-point x prior combinations (14 priors x 24, + 60 @old/@bin variants) are run on the real code every time.',
     level_note='Partial: real process death, page cache and File::create truncate-under-mapping (SIGBUS) are modelled abstractly (a reader can only be attached to a usable file, which is proved never to be truncated); death is modelled between hook events.',
 )
 
@@ -378,3 +444,6 @@ CONSTS = {'C05': 'Client', 'C06': 'Client', 'C14': 'Client', 'C18': 'Reader', 'C
 for _p, _g in CONSTS.items():
     if _p in PROPS:
         PROPS[_p]['consts_module'] = f'ClockBound.Properties.Consts{_g}'
+
+for _p in ('C05', 'C06', 'C14', 'C12', 'C17'):
+    PROPS[_p]['rule'] += SESSION_RULE
